@@ -122,11 +122,7 @@ theorem Sim_fillDefaults (ps : List Param) (f f' : Expr) (args args' : List Expr
       · simp only [pure, Except.pure, ERel, CallSim]
         exact ⟨f, f', args, args', kwn, kwv, kwv', rfl, rfl, h1, h2⟩
 
-def isLamB : Expr → Bool
-  | .lam _ _ => true
-  | _ => false
-
-theorem Sim_isLam {e e' : Expr} (h : Sim e e') : isLamB e' = isLamB e := by
+theorem Sim_isLam {e e' : Expr} (h : Sim e e') : isLamArg e' = isLamArg e := by
   cases e <;> simp only [Sim] at h
   case lam ps b => rw [h]
   case name x => rw [h]
@@ -140,14 +136,11 @@ theorem Sim_isLam {e e' : Expr} (h : Sim e e') : isLamB e' = isLamB e := by
   case comp => obtain ⟨_, _, _, _, _, _, rfl⟩ := h; rfl
   case call => obtain ⟨_, _, _, _, rfl⟩ := h; rfl
 
-theorem SimL_anyLam : ∀ (es es' : List Expr), SimL es es' → es'.any isLamB = es.any isLamB
+theorem SimL_anyLam : ∀ (es es' : List Expr), SimL es es' → es'.any isLamArg = es.any isLamArg
   | [], es', h => by simp only [SimL] at h; rw [h]
   | e :: es, es', h => by
     simp only [SimL] at h
     obtain ⟨e', rest, rfl, h1, h2⟩ := h
     simp only [List.any_cons, Sim_isLam h1, SimL_anyLam es rest h2]
-
-theorem isLamB_eq : (fun a : Expr => match a with | .lam _ _ => true | _ => false) = isLamB := by
-  funext a; cases a <;> rfl
 
 end Fadl
